@@ -10,6 +10,9 @@ ENG = {
 
 # id -> (engine, technique, level text, level note)
 P = {
+ "C15": ("E2", "explicit-state breadth-first search over sequences of structural operations on the real Matrix (labelled elements), lock-step row-major reference model, state invariant evaluated once in every distinct state; bounded-exhaustive enumeration for constructors/predicates",
+         "From nine labelled start matrices (non-square, with zeros and a symmetric one) every sequence of up to 8 (12 thorough) operations out of ~100 per state - t/t_mut, reshape/reshape_mut/Vector::reshape with all (r,c) in {-2,-1,0,1,2,3,4,6}^2 (valid, inferred, non-dividing, impossible), hcat/vcat/hrepeat/vrepeat, row/column extraction incl. one-past-the-end, in-place row/column sign maps, flat replace, diag, to_vec/to_matrix, both layout conversions - is executed on the real object and on a Vec-of-rows model; each transition compares outcome class (value/panic) and full content, a rejected in-place request must leave the object unchanged, and in every distinct state (8.8e4 quick, 4.7e6 thorough) data.len()=rows x cols and all accessors/predicates ([i,j], [i], flat_idx, rows, columns, diag, shape, size, iteration, is_square/symmetric/upper/lower, out-of-range panics) are compared with the model. Constructors (eye, zeros, ones, diag_matrix, diag, toeplitz, vandermonde, design, transpose, is_matrix/is_square/is_symmetric/is_design) for all sizes 1..=64, arange/linspace on lattices (462 / 2304 instances), rotations at k pi/8 for three axes, and the approximate-equality predicates on all pairs of a 9-value alphabet are enumerated exhaustively.",
+         "The reachable set is not small (transposes of all factorisations generate a large permutation group), so the search is bounded by depth under a 12-element cap; impossible reshape requests are tried in full on objects of <=4 elements and as a state-hash-selected 1/8 subset elsewhere; sign maps only on objects of <=4 (6) elements. Level-synchronous BFS written in the harness (stateright's state-count/timeout caps did not stop its multi-threaded BFS; stateright is kept for cross-checking closures)."),
  "C07": ("E3", "bounded-exhaustive enumeration of interval lattice x panel counts / level budgets x monomial basis, plus a catalogue of analytic integrands and all small sample arrays; exact (double-double) reference integrals",
          "On a 10x10 lattice of end-points in +-1000 (a>b and a=b included): trapz with every panel count 1..=64,100,1000,4096 on all affine integrands over {-2..2}^2; romberg at eps=0 with every level budget k=1..=12 (20 thorough) on every monomial of degree < 2k; the Gauss-Legendre rule on monomials 0..=19; linearity Q(2f-3g)=2Q(f)-3Q(g) and Q(a,b)=-Q(b,a) for all three rules - exactness on the monomial basis plus linearity decides exactness on the polynomial class. The trapezoid error bound (b-a)h^2/12 max|f''| is checked for every panel count and Romberg's error against 10 eps on 20 analytic integrands with closed-form antiderivatives (including sin^2(2 pi x), whose first three trapezoid levels coincide). The sampled rule is compared exactly on all increasing abscissa sets from a 6-point lattice x all ordinate words over {-2..2}, and on arrays of every length 2..=300.",
          "Exactness tolerance 64 N u (b-a) max|f| (N integrand evaluations). The smooth-integrand clauses are decided on the 20 catalogued integrands only."),
